@@ -87,11 +87,11 @@ func init() {
 	}
 
 	runners["fmt"] = func(c *Ctx, in map[string]string) {
-		c.compare("fmt", in, hx(girc.Fmt(in["s"])), "fmt", "", hx(in["s"]))
+		c.compare("fmt", in, c.twice("fmt", in, func() string { return hx(girc.Fmt(in["s"])) }), "fmt", "", hx(in["s"]))
 	}
 	runners["stripraw"] = func(c *Ctx, in map[string]string) {
 		s := in["s"]
-		out := girc.StripRaw(s)
+		out := unhx(c.twice("stripraw", in, func() string { return hx(girc.StripRaw(s)) }))
 		c.compare("stripraw", in, hx(out), "stripraw", "", hx(s))
 		if strings.ContainsAny(out, sevenCodes) {
 			c.R.Violation("strip.clean", hexIn(in), hx(out), "", "StripRaw output contains a formatting control byte")
@@ -409,6 +409,7 @@ func runC14(c *Ctx) {
 		}
 	}
 	runC14Replies(c)
+	runC14Repeats(c)
 }
 
 func runC20(c *Ctx) {
